@@ -45,6 +45,17 @@ Definition ends_with (p : N -> bool) (t : text) : bool :=
 Definition iter_splitlines_spec (t : text) : list text :=
   splitlines is_break t ++ (if ends_with is_break t then [[]] else []).
 
+(* newline.join(lines) *)
+Fixpoint join_lines (sep : text) (ls : list text) : text :=
+  match ls with
+  | [] => []
+  | l :: r => match r with [] => l | _ => l ++ sep ++ join_lines sep r end
+  end.
+
+(* indent(text, margin, newline): the margin in front of every non-empty line of the text *)
+Definition indent_spec (t margin newline : text) : text :=
+  join_lines newline (map (fun l => match l with [] => [] | _ => margin ++ l end) (iter_splitlines_spec t)).
+
 (* ---- the lines of a file -------------------------------------------------- *)
 (* the \n- or \r\n-separated lines of a content, each without its line break; a content
    with k breaks has k+1 lines (the last may be empty), the empty content has none.
